@@ -981,7 +981,8 @@ func ruleCheckIDs(c *Ctx, r *Report, prefix string) {
 			f := res2.Rets[0]
 			name := ""
 			if f.k == kFn && f.fn != nil {
-				name = f.fn.Name()
+				name = FnName(f.fn)
+				name = name[strings.LastIndex(name, ".")+1:]
 				if f.fn.Pkg != nil && !c.InModule(f.fn) {
 					name = f.fn.Pkg.Pkg.Path() + "." + f.fn.Name()
 				}
